@@ -204,10 +204,22 @@ def rule_closure(ctx):
             for s_ in stores:
                 tgt = s_.targets[0]
                 ok = isinstance(tgt.value, ast.Name) and tgt.value.id == conn and conn not in own_params and not local_defs(hd, conn)
+                if not ok and isinstance(tgt.value, ast.Name) and tgt.value.id in own_params and len(local_defs(hd, tgt.value.id)) == 1:
+                    # the session is a parameter of the callback, bound with functools.partial(callback, ..., <the handler's session>, ...) at every use
+                    i_ = own_params.index(tgt.value.id)
+                    uses = [x for x in walk_no_nested(h) if isinstance(x, ast.Name) and x.id == hd.name and isinstance(x.ctx, ast.Load)]
+                    ok = bool(uses)
+                    for u in uses:
+                        par = p.parent.get(u)
+                        bound = isinstance(par, ast.Call) and (dotted(par.func) or "").split(".")[-1] == "partial" and par.args and par.args[0] is u \
+                            and len(par.args) > i_ + 1 and isinstance(par.args[i_ + 1], ast.Name) and par.args[i_ + 1].id == conn and not any(isinstance(a, ast.Starred) for a in par.args)
+                        if not bound:
+                            ok = False
                 ctx.ob("C17.CLOSURE", s_, f"{verb}: accepted data connection stored into the enclosing handler's session `{conn}`", ok,
                        f"{verb}: accepted data connection stored into `{src(tgt.value)}`, not the session that opened the listener", construct=f"closure:{verb}:{src(tgt.value)}")
             # the callback is the one handed to the listener start
-            used = any(isinstance(c, ast.Call) and any(isinstance(a, ast.Name) and a.id == hd.name for a in c.args) for c in walk_no_nested(h))
+            used = any(isinstance(c, ast.Call) and any(isinstance(a, ast.Name) and (a.id == hd.name or (isinstance(thunk_call(p, h, a), ast.Call) and src(thunk_call(p, h, a).func) == hd.name)) for a in c.args)
+                       for c in walk_no_nested(h))
             ctx.ob("C17.CLOSURE", hd, f"{verb}: the callback defined in this call is the one passed to the listener", used, f"{verb}: the nested accept callback is not the one passed to the listener", construct=f"closure:{verb}:unused")
     if n < 2:
         ctx.floor_errors.append(f"rule=C17.CLOSURE: {n} accept callbacks (floor 2)")
